@@ -199,8 +199,9 @@ CHECKS['C12'] = dict(level=MC, ref='4 C12',
          'within TolTrunc; (iii) every bond metric of the 6 NTU clusters (and BP) on every bond: Hermiticity defect and smallest eigenvalue against TolMetric; (iv) dependency probes: the set of PEPS tensors each CTM '
          'tensor (after k = 0..max expansions), boundary MPS and NTU metric really depends on equals the region / cluster of EnvCover; (v) CtmMoves.tla / CtmMovesMC: the moves of EnvCTM.update_ (h, v simultaneous; '
          'l, r, t, b sequential, column after column) as a coverage state machine - TLC explores EVERY sequence of moves on every lattice up to 4x4 (never a site outside its region or twice; the exact environment is '
-         'the only fixed point; one sweep of the four sequential moves in ANY of the 24 orders is exact; the simultaneous pair needs max(Nx,Ny)-1 rounds) and ctmu events bind it: after update_(moves) from reset_(eye) on '
-         'a generic PEPS a measured 1-site / nn value is exact IFF the formula counts every site once in the model coverage after these moves (both directions).',
+         'the only fixed point; one sweep of the four sequential moves in ANY of the 24 orders gives complete coverage; the simultaneous pair needs max(Nx,Ny)-1 rounds) and ctmu events bind the NECESSARY direction: after update_(moves) '
+         'from reset_(eye) on a generic PEPS a measured 1-site / nn value can be exact only if the formula counts every site once in the model coverage after these moves. (The converse was claimed at first and refuted by '
+         'the implementation on 3x4 in the thorough tier: projectors are computed from the norm network as currently built and discard directions needed later - DESIGN 6.6.)',
     note='measured numbers enter as the Gaussian integer nearest to value * <psi|psi> (must be within 1e-8 relative), metric and truncation numbers in units of 1e-12 - floating-point observations; the expected values, '
          'signs, regions and clusters are computed by TLC. BP nn values only on tree bonds; EnvCTM as a truncation environment on finite lattices (bond_metric / update_bond_) is outside the statement and not '
          'exercised; sampling not covered. bounded: lattices 1x2..3x3, 2x4, 4x2, 1x5 (<= 9 modes; probes up to 4x5), 8 families, 48/640 states of up to ~100 amplitudes, <psi|psi> <= 2^26, ~25/60 measured operators per state. BpCover.tla / BpCoverMC: belief propagation as message passing on the entanglement graph in ANY order of single updates - on a forest never a double count and the only fixpoint is exact (1-site and tree-bond nn formulas count the entangled component once), a cycle double counts, a bond outside the forest inside one component double counts (quick: every graph of 1x3 and 2x2; thorough: every forest of 1x4, 2x3, 3x2, 1.25 M states); BP dependency probes: messages after k = 1..3 sweeps of update_ in the recorded order. A second open KNOWN FINDING: identically vanishing NTU metric (SVD-1 hair in a charged sector, canonical stored state)',
